@@ -18,7 +18,7 @@ def cfg(ctx, maxatoms=2, minatoms=None, maxt=3, bases="{2, 3}", offn=0, ops=ALLO
             "  OffN = %d\n  Ops = %s\n  Sides = %s\n  Spells = %s\n  Forms = %s\n  DateBases = {2, 3}\n"
             "  FormMode = \"%s\"\n  NTLevel = %d\n  ShapeLevel = %d\n  Seed = %d\n  WinIds = %s\n  MaxCalls = %d\n  TopOr = %s\n"
             "  MinAtoms = %d\n"
-            "INVARIANTS StepHolds NoGrowthInv NTAgree\nCHECK_DEADLOCK FALSE\n"
+            "INVARIANTS StepHolds NoGrowthInv NTAgree PrintFaithfulInv\nCHECK_DEADLOCK FALSE\n"
             % ("TRUE" if fixed else "FALSE", maxatoms, maxt, bases, offn, ops, sides, spells, forms, mode, nt, shapes,
                ctx.seed % 1000, wins, calls, "TRUE" if topor else "FALSE",
                (maxatoms if minatoms is None else minatoms)))
@@ -32,7 +32,8 @@ def run(ctx):
                 "atoms, boolean literals; also a bare `a OR b`) followed by every sequence of MaxCalls windows out of the "
                 "window set; the design's SetTimeRange is model-checked against the property in every state; every "
                 "complete history is run on a real SelectStatement and validated step by step by the TLA+ judge "
-                "(selection through ConditionExpr + EvalBool at every grid point; node count). Distinct = distinct "
+                "(selection through ConditionExpr + EvalBool at every grid point; node count; plain boolean reading of the "
+                "printed condition parsed back vs the condition held). Distinct = distinct "
                 "histories. Non-trivial = the initial condition has a time bound and the history has >= 2 calls.")
     ctx.assumptions = ["TLC 1.8 and the CommunityModules Json/CSV modules",
                        "harness/suite_c10.go maps symbolic instants to real timestamps and back",
@@ -45,6 +46,10 @@ def run(ctx):
         parts.append(("one", cfg(ctx, maxatoms=1, mode="all", nt=1, shapes=0, ops=OPS3), None, None))
         # every pair over a rotating alphabet, all sequences of 2 windows
         parts.append(("two", cfg(ctx, maxatoms=2, ops=OPS3, nt=0, calls=2, topor=False), None, None))
+        # a parenthesised OR group of two tag atoms AND-ed with one time atom (every op / side / form, two spellings),
+        # both orders, all 16 sequences of 2 windows: the group must keep its parentheses through strip, fold, print, re-parse
+        parts.append(("orgrp", cfg(ctx, maxatoms=2, maxt=1, mode="all", nt=9, ops=OPS3, spells='{"time", "Time"}',
+                                   forms='{"rfc", "dur", "now"}', calls=2, topor=False), None, None))
         parts.append(("sim", cfg(ctx, maxatoms=3, minatoms=2, bases="{1, 2, 3, 4}", offn=1, nt=1, shapes=2, wins="{1, 2, 3, 4, 5}"), "num=150", 8))
     else:
         # every single atom (all operators, spellings, sides, forms), every sequence of 3 out of 4 windows
@@ -55,6 +60,12 @@ def run(ctx):
         parts.append(("two", cfg(ctx, maxatoms=2, nt=1, shapes=0, calls=3, topor=False), None, None))
         parts.append(("two2", cfg(ctx, maxatoms=2, ops=OPS3, nt=0, shapes=2, calls=2, topor=False), None, None))
         parts.append(("three", cfg(ctx, maxatoms=3, ops=OPS3, nt=0, shapes=0, calls=2, wins="{1, 2, 5}", topor=False), None, None))
+        # OR group x time atom as in quick, all operators, spellings and forms, 9 sequences of 2 windows
+        parts.append(("orgrp", cfg(ctx, maxatoms=2, maxt=1, mode="all", nt=9, shapes=0, calls=2, wins="{1, 2, 5}",
+                                   topor=False), None, None))
+        # time atom, OR group, time atom in every order (rotating forms), sequences of 3 windows
+        parts.append(("orgrp3", cfg(ctx, maxatoms=3, maxt=2, mode="rot", nt=9, ops=OPS3, sides='{"L"}', calls=3,
+                                    wins="{1, 2, 5}", topor=False), None, None))
         parts.append(("sim", cfg(ctx, maxatoms=3, minatoms=2, bases="{1, 2, 3, 4}", offn=1, nt=2, shapes=2, wins="{1, 2, 3, 4, 5}"), "num=1500", 8))
     _c10.pipeline(ctx, "Gen_c18", "c18", "Judge_c18", lambda group: "Judge_c18.cfg",
                   [dict(name=p[0], cfg=p[1], group="all", sim=p[2], depth=p[3]) for p in parts], "histories",
